@@ -635,6 +635,9 @@ func (x *Exec) execInstr(s *State, in ssa.Instruction) {
 		case *types.Struct:
 			x.zeroStruct(s, r, et)
 			s.allocTypes = append(s.allocTypes, allocRec{r, et, x.label(in)})
+			if x.p.isPackageType(et) {
+				s.assume(Eq(mk(SInt, "objtype", r), IntLit(int64(x.p.tag(types.NewPointer(et))))))
+			}
 		case *types.Array:
 			_ = u
 		default:
@@ -777,6 +780,9 @@ func (x *Exec) box(s *State, v Val, t types.Type) T {
 	tag := IntLit(int64(x.p.tag(t)))
 	if isIface(t) {
 		return v.T
+	}
+	if st, ok := t.Underlying().(*types.Struct); ok && st.NumFields() == 0 {
+		return mk(SIface, "iref", tag, IntLit(0)) // all values of an empty struct type are equal
 	}
 	if v.K != vScalar {
 		// slices etc. inside interfaces: opaque
@@ -1080,6 +1086,7 @@ func (x *Exec) unop(s *State, in *ssa.UnOp) {
 		res := x.load(s, v, elem, false)
 		res = x.nameVal(s, in, res)
 		x.assumeLoaded(s, res, elem)
+		x.assumeEntryAllocated(s, v, res, elem)
 		fr.env[in] = res
 	case token.NOT:
 		fr.env[in] = scalar(Not(v.T))
@@ -1116,6 +1123,34 @@ func (x *Exec) nameVal(s *State, in ssa.Value, v Val) Val {
 		v.Cap = x.define(s, in.Name()+".c", v.Cap)
 	}
 	return v
+}
+
+// assumeEntryAllocated: a reference read from a memory location that has not been written since
+// function entry already existed at entry (it cannot be an object allocated during this call).
+func (x *Exec) assumeEntryAllocated(s *State, p Val, res Val, t types.Type) {
+	if res.K != vScalar {
+		return
+	}
+	key := p.Key
+	if p.K == vScalar && key == "" {
+		key = cellKey(t)
+	}
+	if key == "" {
+		return
+	}
+	cur, ok1 := s.heap[key]
+	ent, ok2 := s.heap0[key]
+	if !ok1 || !ok2 || cur.S != ent.S {
+		return
+	}
+	x.heapSym(s, "alloc", SArray(SInt, SBool))
+	a0 := s.heap0["alloc"]
+	switch t.Underlying().(type) {
+	case *types.Pointer:
+		s.assume(Or(Eq(res.T, IntLit(0)), Select(a0, res.T, SBool)))
+	case *types.Interface:
+		s.assume(Implies(And(mk(SBool, "(_ is iref)", res.T), Not(Eq(mk(SInt, "iptr", res.T), IntLit(0)))), Select(a0, mk(SInt, "iptr", res.T), SBool)))
+	}
 }
 
 // assumeLoaded adds type invariants for values read from memory.
@@ -1170,6 +1205,11 @@ func (x *Exec) storeInstr(s *State, in *ssa.Store) {
 		}
 	}
 	x.store(s, addr, elem, val)
+	if _, isFV := in.Addr.(*ssa.FreeVar); isFV && len(s.frames) == 1 && x.fnc != nil && x.fnc.Conforms == "functionQuery.Func" {
+		// an XPath function closure is shared by every evaluation of the compiled expression:
+		// it must not assign the variables it captured
+		x.oblige(s, "frame", "captured-store:"+x.label(in), TFalse, in.Pos(), []string{"C04", "C05"})
+	}
 	if _, isFV := in.Addr.(*ssa.FreeVar); isFV {
 		if fc := x.contractOf(in.Parent()); fc != nil {
 			for i, cl := range fc.clauses("captures") {
